@@ -474,14 +474,21 @@ fn fn_family(props: &str, out: &mut Vec<Fail>) -> usize {
     let rets = [None, Some("u32"), Some("*mut T"), Some("Missing")];
     let ccs: [Option<&str>; 4] = [None, Some("cdecl"), Some("vectorcall"), Some("bogus")];
     let mut n = 0;
-    for a in addrs { for r in recvs { for na in 0..=2usize { for ak in 0..argtys.len().pow(na as u32) { for ret in rets { for cc in ccs { for vis in ["pub ", ""] { for recv_last in [false, true] {
+    for a in addrs { for r in recvs { for na in 0..=2usize { for ak in 0..argtys.len().pow(na as u32) { for ret in rets { for cc in ccs { for vis in ["pub ", ""] { for recv_mode in 0..4usize {
         if vis.is_empty() && (ak + na) % 3 != 0 { continue; }
-        // a receiver that is not the first argument (only tried with one or two other arguments, public, some conventions)
-        if recv_last && (r.is_empty() || na == 0 || vis.is_empty() || ret.is_some()) { continue; }
-        let mut args: Vec<String> = vec![]; if !r.is_empty() && !recv_last { args.push(r.to_string()); }
+        // receiver placement: 0 = first (or none); 1 = only after the other arguments; 2 = first and once more after the
+        // other arguments (the other receiver kind); 3 = two receivers in front.  1..3 must be rejected: the emitted
+        // signature would not be the declared one (only tried public, without return type)
+        let recv_last = recv_mode != 0;
+        if recv_last && (r.is_empty() || vis.is_empty() || ret.is_some()) { continue; }
+        if (recv_mode == 1 || recv_mode == 2) && na == 0 { continue; }
+        let other = if r == "&self" { "&mut self" } else { "&self" };
+        let mut args: Vec<String> = vec![]; if !r.is_empty() && recv_mode != 1 { args.push(r.to_string()); }
+        if recv_mode == 3 { args.push(other.to_string()); }
         let mut atys = vec![]; let mut kk = ak;
         for i in 0..na { let t = argtys[kk % argtys.len()]; kk /= argtys.len(); atys.push(t); args.push(format!("a{i}: {t}")); }
-        if recv_last { args.push(r.to_string()); }
+        if recv_mode == 1 { args.push(r.to_string()); }
+        if recv_mode == 2 { args.push(other.to_string()); }
         let mut attrs = vec![]; if let Some(a) = a { attrs.push(format!("address({a})")); } if let Some(c) = cc { attrs.push(format!("calling_convention(\"{c}\")")); }
         let src = format!("pub type T {{ pub x: u32, }}\nimpl T {{\n    {}{vis}fn f({}){};\n}}\n",
             if attrs.is_empty() { String::new() } else { format!("#[{}]\n    ", attrs.join(", ")) }, args.join(", "), ret.map(|t| format!(" -> {t}")).unwrap_or_default());
